@@ -79,7 +79,7 @@ func rawDescriptors(pkgs []*packages.Package) (map[string]*descriptorpb.FileDesc
 type freshSet struct {
 	files    []*descriptorpb.FileDescriptorProto // to generate
 	deps     []*descriptorpb.FileDescriptorProto // additional proto_file entries (imports)
-	mappings map[string]string                  // proto file -> Go import path
+	mappings map[string]string                   // proto file -> Go import path
 	label    string
 }
 
@@ -247,7 +247,8 @@ func loadFreshTargets(rep *Report) ([]genMsg, error) {
 		gp := fd.GetOptions().GetGoPackage()
 		if strings.HasPrefix(gp, repoModule+"/testpb") || strings.HasPrefix(gp, repoModule+"/internal/testprotos") {
 			gen = append(gen, name)
-			mappings[name] = freshModule + "/regen/" + shortPkg(strings.Split(gp, ";")[0])
+			gpp := strings.Split(gp, ";")[0]
+			mappings[name] = freshModule + "/regen/" + gpp[strings.LastIndex(gpp, "/")+1:]
 		}
 	}
 	for name := range all {
@@ -264,7 +265,7 @@ func loadFreshTargets(rep *Report) ([]genMsg, error) {
 	}
 	same, differ := 0, 0
 	for _, pk := range res.prog.roots {
-		orig := checked.pkg(shortPkg(pk.PkgPath))
+		orig := checked.pkg(pk.PkgPath[strings.LastIndex(pk.PkgPath, "/")+1:])
 		for _, ms := range messageSchemas(pk) {
 			identical := orig != nil
 			if orig != nil {
